@@ -57,7 +57,7 @@ def run(ck):
                     ck.check(ok, "C20.R2", inst + ":phase network is a separate object", isite, "rbm_ph is the same object as rbm_am (or of another class)")
                     if ok:
                         pa, pp = param_objs(it, am), param_objs(it, ph)
-                        shared = [o for o in pp if any(o in x.roots() for x in pa)]
+                        shared = [o for o in pp if any(o in x.roots() or x in o.roots() for x in pa)]
                         ck.check(not shared and len(pa) == len(pp) and len(pp) > 0, "C20.R2", inst + ":independent parameter storage", isite,
                                  "the phase network shares parameter storage with the amplitude network (changing one changes the other)")
                         ck.check([x.shape for x in pa] == [x.shape for x in pp], "C20.R2", inst + ":copy has the same shapes", isite, "the phase network's parameter shapes differ from the module's")
